@@ -225,6 +225,36 @@ class View:
                 return sbuf.read(sidx, upto)
 
             self.buf.write(self._box(), rhs, tag)
+        elif hasattr(value, "fn") and hasattr(value, "shape"):  # svx.symnp.Lazy element-wise expression
+            lz = value
+            if lz.ndim > self.ndim:
+                raise ValueError("could not broadcast input array")
+            pad = self.ndim - lz.ndim
+            modes = []
+            for j, t in enumerate(self.vaxes):
+                if j < pad:
+                    modes.append(None)
+                    continue
+                n = S(lz.shape[j - pad])
+                if ctx.decide(n == t[3]) is True:
+                    modes.append("same")
+                elif ctx.decide(n == 1) is True:
+                    modes.append("bcast")
+                elif ctx.branch(n == t[3]):
+                    modes.append("same")
+                elif ctx.branch(n == 1):
+                    modes.append("bcast")
+                else:
+                    raise ValueError(
+                        f"could not broadcast input array from shape {lz.shape} into shape {self.shape}")
+            tspec = self.spec
+
+            def rhs(idx, modes=modes, tspec=tspec, lz=lz):
+                vc = [idx[s[1]] - s[2] for s in tspec if s[0] == "ax"]
+                return S(lz.fn(tuple(vc[j] if m == "same" else Sym.const(0)
+                                     for j, m in enumerate(modes) if m is not None)))
+
+            self.buf.write(self._box(), rhs, tag)
         elif isinstance(value, np.ndarray) and value.ndim:
             raise Unsupported("assignment of a concrete ndarray into a symbolic field")
         else:
